@@ -82,7 +82,8 @@ func newRxEnv(nEed, nEnv int) *rxEnv {
 	info := testInfo()
 	info.ChannelPackageQueueSize = 20000
 	conn, _ := tds.VerifNewConn(context.Background(), newCapConn(), info, false)
-	e := &rxEnv{conn: conn, ch: conn.VerifNewChannel(0)}
+	// the receive path is the same for the main channel and for logical channels: the id varies with the case
+	e := &rxEnv{conn: conn, ch: conn.VerifNewChannel((nEed + 2*nEnv) % 3)}
 	for i := 0; i < nEed; i++ {
 		e.addEEDHook()
 	}
